@@ -157,6 +157,42 @@ def rule_guard(ctx):
                            f'{ci.name}.{name}: the freed-object guard logs and falls through: the method goes on to release '
                            f'and emit a command with id None' if not ends else 'guard ends the path', s, f.module)
     ctx.require(n >= 25, 'C17.guard', f'only {n} freed-object guards found')
+    # census: every Buffer method that names its own number in a command (or hands it out as a node argument) starts by refusing a
+    # freed buffer; None would be encoded as 0, a number the object does not own
+    b = ctx.repo.cls('sc3.synth.buffer:Buffer')
+    m_ = 0
+    for name, f in sorted(b.methods.items()):
+        if name in ('__init__', '__repr__', '_cache', '_uncache', 'free', '_as_ugen_input'):
+            continue      # constructor (allocates), repr, cache bookkeeping, free (its own warn-and-return guard, checked above)
+        uses = []
+        for c in U.calls(f.node):
+            if U.method_name(c) in ('send_msg', 'send_bundle') or (isinstance(c.func, ast.Attribute) and c.func.attr in ('send_msg', 'send_bundle')):
+                if any(norm(x) in ('self._bufnum', 'self.bufnum') for a in c.args for x in ast.walk(a)):
+                    uses.append(c)
+        for l in walk_local(f.node):
+            if isinstance(l, ast.List) and l.elts and isinstance(U.literal(l.elts[0]), str) and U.literal(l.elts[0]).startswith('/b_') and \
+                    any(norm(x) in ('self._bufnum', 'self.bufnum') for x in ast.walk(l)) and \
+                    not any(isinstance(p_, ast.keyword) and p_.arg == 'arg_template' for p_ in U.parent_chain(l)):   # a reply filter, not a command
+                uses.append(l)
+        if name == '_as_control_input':
+            uses = [r for r in walk_local(f.node) if isinstance(r, ast.Return)]
+        if not uses:
+            continue
+        m_ += 1
+        first = min(u.lineno for u in uses)
+        guard = [x for x in f.node.body if isinstance(x, ast.If) and norm(x.test) == 'self._bufnum is None' and x.lineno < first
+                 and x.body and isinstance(x.body[-1], (ast.Raise, ast.Return))]
+        ctx.ob('C17.guard', f'{f.fq}:refuses-freed', bool(guard),
+               f'Buffer.{name} puts self._bufnum into a command without first refusing a freed buffer (most sibling methods raise '
+               f'BufferAlreadyFreed): after free() the command names id None, sent as 0', f.node, f.module)
+    ctx.require(m_ >= 20, 'C17.guard', f'only {m_} Buffer methods that name their number found')
+    fa = b.methods['free_all']
+    marks = [x for x in walk_local(fa.node) if isinstance(x, ast.Assign) and any(isinstance(t, ast.Attribute) and t.attr == '_bufnum' for t in x.targets)
+             and isinstance(x.value, ast.Constant) and x.value.value is None]
+    order_ok = bool(marks) and all(x.lineno < c.lineno for x in marks for c in U.calls(fa.node) if U.method_name(c) == '_clear_server_caches')
+    ctx.ob('C17.guard', f'{fa.fq}:marks-freed', order_ok,
+           'free_all releases every number of the server: the buffer objects it knows (the cache) must be marked freed before the cache is dropped, '
+           'or a later free() on one of them releases a number that a newer buffer owns', fa.node, fa.module)
 
 
 def rule_pair(ctx):
@@ -278,7 +314,19 @@ def rule_convenience(ctx):
     tp = pm.params[0]
     ok = f'for control, bus in utl.gen_cclumps({tp}, 2):' in src and \
         'data.extend([gpp.node_param(control)._as_control_input(), bus, 1])' in src and \
-        'data.extend([gpp.node_param(control)._as_control_input(), bus.index, bus.channels])' in src and src.endswith('return data')
+        'data.extend([gpp.node_param(control)._as_control_input(), gpp.node_param(bus)._as_control_input(), bus.channels])' in src and src.endswith('return data')
+    ctx.ob('C17.guard', f'{pm.fq}:bus-through-guard', 'bus.index' not in src and 'bus._index' not in src,
+           'a bus object given to mapn/mapan goes through its _as_control_input (which refuses a freed bus), not through the bare index', pm.node, nm)
+    sn = node.methods['setn']
+    seqtests = [norm(x.test) for x in walk_local(sn.node) if isinstance(x, ast.If) and 'isinstance(' in norm(x.test)]
+    ctx.ob('C17.cmds', f'{sn.fq}:sequence-values', any('tuple' in t and 'list' in t for t in seqtests),
+           f'/n_setn takes control, count, values...: a tuple of values is counted and spread like a list (found tests {seqtests}; '
+           f'the argument conversion keeps tuples)', sn.node, nm)
+    fl = node.methods['fill']
+    sends = [c for c in U.calls(fl.node) if U.method_name(c) == 'send_msg']
+    raw = [norm(a) for c in sends for a in c.args[2:] if not isinstance(a, ast.Starred)]
+    ctx.ob('C17.cmds', f'{fl.fq}:all-converted', len(sends) == 1 and not raw and '_as_control_input()' in norm(sends[0].args[-1]) if sends else False,
+           f'every triple of /n_fill goes through the control-input conversion; passed raw: {raw}', fl.node, nm)
     ctx.ob('C17.cmds', f'{pm.fq}', ok, '/n_mapn arguments are (control, bus index, channel count) per pair, an int bus standing for one channel', pm.node, nm)
 
 
@@ -360,12 +408,24 @@ def run(ctx):
 
 
 MUTANTS = [
+    dict(rule='C17.guard', name='Buffer.read without the freed guard (fix reverted)', file='sc3/synth/buffer.py',
+         old="        if self._bufnum is None:\n            raise BufferAlreadyFreed('read')\n", new=""),
+    dict(rule='C17.guard', name='freed Buffer accepted as node argument (fix reverted)', file='sc3/synth/buffer.py',
+         old="        if self._bufnum is None:\n            raise BufferAlreadyFreed('_as_control_input')\n", new=""),
+    dict(rule='C17.guard', name='free_all leaves the known objects live (fix reverted)', file='sc3/synth/buffer.py',
+         old="                buf._bufnum = buf._frames = buf._channels = None\n", new="                buf._frames = buf._channels = None\n"),
+    dict(rule='C17.cmds', name='setn spreads lists only (fix reverted)', file='sc3/synth/node.py',
+         old="            if isinstance(more_vals, (list, tuple)):", new="            if isinstance(more_vals, list):"),
+    dict(rule='C17.cmds', name='fill passes its first triple raw (fix reverted)', file='sc3/synth/node.py',
+         old="            *gpp.node_param(\n                [cname, num_controls, value, *args])._as_control_input())", new="            cname, num_controls, value,\n            *gpp.node_param(args)._as_control_input())"),
+    dict(rule='C17.guard', name='mapn reads the bare bus index (fix reverted)', file='sc3/synth/node.py',
+         old="                    gpp.node_param(bus)._as_control_input(), bus.channels])", new="                    bus.index, bus.channels])"),
     dict(rule='C17.cmds', name='Group.after adds before', file='sc3/synth/node.py',
          old="        return cls(target, 'addAfter')", new="        return cls(target, 'addBefore')"),
     dict(rule='C17.cmds', name='Synth.tail passes the target as args', file='sc3/synth/node.py',
          old="        return cls(def_name, args, target, 'addToTail')", new="        return cls(def_name, target, args, 'addToTail')"),
     dict(rule='C17.cmds', name='mapn emits channels before index', file='sc3/synth/node.py',
-         old="                    bus.index, bus.channels])", new="                    bus.channels, bus.index])"),
+         old="                    gpp.node_param(bus)._as_control_input(), bus.channels])", new="                    bus.channels, gpp.node_param(bus)._as_control_input()])"),
     dict(rule='C17.bind', name='bind sync records the marker index after appending it', file='sc3/base/netaddr.py',
          old="        self._last_sync = len(self._bundle)\n        self._bundle.append([self._SYNC_FLAG, latency, elements])",
          new="        self._bundle.append([self._SYNC_FLAG, latency, elements])\n        self._last_sync = len(self._bundle)"),
